@@ -336,7 +336,11 @@ def render_files(state: dict[str, Any]) -> dict[str, str]:
     files: dict[str, str] = {}
     if state.get("plugin") is not None:
         n = int(state["plugin"])
-        files["simplug.py"] = PLUGIN_TEXT.format(n=n, t=["int", "str", "bool"][n % 3])
+        text = PLUGIN_TEXT.format(n=n, t=["int", "str", "bool"][n % 3])
+        if state.get("plugin_wide"):
+            # a plugin whose version is visible in more diagnostics (every f0/f1 call)
+            text = text.replace('if fullname.endswith(".f1"):', 'if fullname.endswith((".f0", ".f1")):')
+        files["simplug.py"] = text
         files["mypy.ini"] = "[mypy]\nplugins = simplug.py\n"
     for mid, mod in sorted(state["mods"].items()):
         if not mod["exists"]:
